@@ -267,13 +267,13 @@ uint32_t qhashmurmur3_32(const void *data, size_t nbytes) {
     const uint32_t c1 = 0xcc9e2d51;
     const uint32_t c2 = 0x1b873593;
 
-    const int nblocks = nbytes / 4;
+    const size_t nblocks = nbytes / 4;
     const uint32_t *blocks = (const uint32_t *) (data);
     const uint8_t *tail = (const uint8_t *) (data + (nblocks * 4));
 
     uint32_t h = 0;
 
-    int i;
+    size_t i;
     uint32_t k;
     for (i = 0; i < nblocks; i++) {
         k = blocks[i];
@@ -339,14 +339,14 @@ bool qhashmurmur3_128(const void *data, size_t nbytes, void *retbuf) {
     const uint64_t c1 = 0x87c37b91114253d5ULL;
     const uint64_t c2 = 0x4cf5ad432745937fULL;
 
-    const int nblocks = nbytes / 16;
+    const size_t nblocks = nbytes / 16;
     const uint64_t *blocks = (const uint64_t *) (data);
     const uint8_t *tail = (const uint8_t *) (data + (nblocks * 16));
 
     uint64_t h1 = 0;
     uint64_t h2 = 0;
 
-    int i;
+    size_t i;
     uint64_t k1, k2;
     for (i = 0; i < nblocks; i++) {
         k1 = blocks[i * 2 + 0];
